@@ -156,6 +156,15 @@ func Case(w *vt.W, rng *rand.Rand, id, maxLen int) {
 			if ln >= 60 && g >= 1 {
 				indels = g
 				at := 20 + rng.Intn(ln-40)
+				// half of the runs of MaxIGap sit in the middle of a copy of 1.5-1.6 times the minimum, so that
+				// neither side of the run reaches the minimum hit length by itself: the copy is found only if the
+				// extension really passes through the run (where the shorter copy still keeps its differences
+				// within a third of those allowed)
+				if tl := minLen*3/2 + rng.Intn(minLen/10+1); g == pals.MaxIGap && tl <= ln && int(float64(tl)*(1-minID)/3) >= g && rng.Intn(2) == 0 {
+					ln = tl
+					cp = append([]byte{}, tsrc[ta:ta+ln]...)
+					at = ln*42/100 + rng.Intn(ln*16/100+1)
+				}
 				if rng.Intn(2) == 0 {
 					cp = append(cp[:at], cp[at+g:]...)
 				} else {
